@@ -17,8 +17,15 @@ Conventions
 * Every `receive_frame` on an enabled interface is logged (`Ev.rx`, TTL before the decrement), every router
   decrement in `process_frame/route_frame` (`Ev.hop`) and every hand-over to software
   (`SoftwareManager.receive_payload_from_session_manager`, `Ev.sw`).
-* Not modelled (stated in the design note): link bandwidth, ACLs other than the default router ACL (ARP and ICMP
-  permitted), NMNE capture, sessions, services other than ARP/ICMP, wireless.
+* A firewall is a router with the field `fw` set: `Firewall.receive_frame` (no operating-state test, no ARP exemption),
+  the entry point chosen by the arrival port (0 external, 1 internal, 2 DMZ), first verdict, learn, own software or the
+  second list chosen by the destination (`_process_*_frame`), then `process_frame`.  Rule lists are abstracted to one
+  verdict per payload class (ARP / ICMP / service); the rule lists themselves are C07's, the order of guards C06's
+  (`Props/C08Forward.lean` ties the port / list tables to `Model/Filter.lean`).
+* A wireless access point behaves like a router interface (`WirelessAccessPoint.receive_frame` = enabled → decrement →
+  TTL test → MAC test); an air space frequency shared by exactly two access points is a link.
+* Not modelled (stated in the design note): link / air space bandwidth, the content of rule lists, NMNE capture,
+  sessions, services other than ARP / ICMP / one UDP service, air space frequencies with more than two interfaces.
 -/
 import PrimaiteModel.Model.Route
 namespace Primaite.Forward
@@ -82,6 +89,8 @@ structure Node where
   flag : Bool := false
   /-- host: the client side has received a reply -/
   served : Bool := false
+  /-- firewall: the permitted (rule list, payload class) pairs; `none` = a plain router (or host / switch) -/
+  fw : Option (List (Nat × Nat)) := none
 deriving DecidableEq, Repr
 
 inductive Ev
@@ -158,6 +167,49 @@ def hostAccepts (nd : Node) (ifc : Iface) (f : Frame) : Bool :=
 
 /-- `RouterInterface.receive_frame` acceptance test. -/
 def routerAccepts (ifc : Iface) (f : Frame) : Bool := f.dstMac == ifc.mac || f.dstMac == bcastMac
+
+/-! ### firewall: rule lists abstracted to one verdict per payload class -/
+
+/-- payload class read by the (abstracted) rule lists: 0 ARP (UDP 219), 1 ICMP, 2 the UDP service. -/
+def plClass : Pl → Nat
+  | .arpReq _ _ _ => 0
+  | .arpRep _ _ _ _ => 0
+  | .echoReq _ => 1
+  | .echoRep _ => 1
+  | .dataReq => 2
+  | .dataRep => 2
+
+/-- rule lists of a firewall, numbered: 0 external inbound, 1 external outbound, 2 internal inbound,
+3 internal outbound, 4 DMZ inbound, 5 DMZ outbound. -/
+def fwPermits (acl : List (Nat × Nat)) (l : Nat) (pl : Pl) : Bool := acl.contains (l, plClass pl)
+
+/-- `Firewall.receive_frame`: the list asked first, by arrival port (0 external, 1 internal, 2 DMZ). -/
+def ingressList (i : Nat) : Option Nat :=
+  if i == 0 then some 0 else if i == 1 then some 3 else if i == 2 then some 5 else none
+
+/-- first verdict.  Router: ARP is exempt, ICMP is permitted by default rule 23, the service only with a permit rule,
+implicit deny.  Firewall: the arrival port's list, for every frame (no ARP exemption); no entry point for other ports. -/
+def aclDenies (nd : Node) (i : Nat) (pl : Pl) : Bool :=
+  match nd.fw with
+  | none => (pl == .dataReq || pl == .dataRep) && !nd.flag
+  | some acl =>
+    match ingressList i with
+    | some l => !fwPermits acl l pl
+    | none => true
+
+/-- `_process_external_inbound_frame` / `_process_internal_outbound_frame`: the second list, by destination
+(`dst in self.dmz_port.ip_network` → DMZ inbound, else internal inbound resp. external outbound). -/
+def inDmzNet (nd : Node) (dst : Ip) : Bool :=
+  match nd.ifaces[2]? with
+  | some d => d.inNet dst
+  | none => false
+
+def secondList (nd : Node) (i : Nat) (dst : Ip) : Nat :=
+  if inDmzNet nd dst then 4 else if i == 0 then 2 else 1
+
+/-- `_process_dmz_outbound_frame`: the second list, by resolved outbound port (external → external outbound,
+internal → internal inbound, anything else → dropped). -/
+def dmzSecondList (o : Nat) : Option Nat := if o == 0 then some 1 else if o == 1 then some 2 else none
 
 /-- `IPPacket.ttl` default. -/
 def initTtl : Int := 64
@@ -411,7 +463,10 @@ def resolveOut (fuel : Nat) (st : St) (n : Nat) (dst : Ip) : St × Option Nat :=
         match nd.kind with
         | .host =>
           match nd.gateway with
-          | some g => if nd.ifaces.any (·.enabled) then arpIfc fuel st n g false false else (st, none)
+          | some g =>
+            -- repaired code: the gateway itself, when not on an enabled local network, is not reachable through itself
+            if dst == g then (st, none)
+            else if nd.ifaces.any (·.enabled) then arpIfc fuel st n g false false else (st, none)
           | none => (st, none)
         | .router =>
           match (findBestRoute nd.routes dst).nextHop? with
@@ -478,16 +533,17 @@ def sendArpReq (fuel : Nat) (st : St) (n : Nat) (target : Ip) : St :=
             if target == oif.netAddr || target == oif.bcastAddr then r.1
             else sendArpPkt fuel r.1 n (.arpReq oif.ip oif.mac target) target
 
-/-- `Router.receive_frame` (default ACL: ARP is exempt, ICMP is permitted by rule 23). -/
+/-- `Router.receive_frame` (default ACL: ARP is exempt, ICMP is permitted by rule 23) and `Firewall.receive_frame` with
+its `_process_*_frame` entry points. -/
 def routerRecv (fuel : Nat) (st : St) (n i : Nat) (f : Frame) : St × Frame :=
   match fuel with
   | 0 => (st.out, f)
   | fuel + 1 =>
     match st.node? n, st.iface? n i with
     | some nd, some ifc =>
-      if !nd.on then (st, f) else
-      -- ACL: ARP exempt, ICMP permitted by default rule 23, the service only with a permit rule; implicit deny
-      if (f.pl == .dataReq || f.pl == .dataRep) && !nd.flag then (st, f) else
+      -- `Router.receive_frame` tests the operating state, `Firewall.receive_frame` does not
+      if nd.fw.isNone && !nd.on then (st, f) else
+      if aclDenies nd i f.pl then (st, f) else
       let st := st.modNode n (fun nd => nd.addArp f.srcIp f.srcMac i)
       match ifaceWithIp nd.ifaces f.dstIp with
       | some own =>
@@ -511,7 +567,28 @@ def routerRecv (fuel : Nat) (st : St) (n i : Nat) (f : Frame) : St × Frame :=
           else (st.modNode n (fun nd => { nd with replies := bumpReply nd.replies ident }), f)
         | .dataReq => (st, f)
         | .dataRep => (st, f)
-      | none => routerProcess fuel st n i f
+      | none =>
+        match nd.fw with
+        | none => routerProcess fuel st n i f
+        | some acl =>
+          if i == 2 then
+            -- `_process_dmz_outbound_frame`: outbound port from the ARP cache, else from the best route's next hop
+            let r1 := arpIfc fuel st n f.dstIp false false
+            let r2 : St × Option Nat :=
+              match r1.2 with
+              | some o => (r1.1, some o)
+              | none =>
+                match findBestRoute nd.routes f.dstIp with
+                | .raised => (r1.1.emit (.raised n), none)
+                | res =>
+                  match res.nextHop? with
+                  | some nh => arpIfc fuel r1.1 n nh false false
+                  | none => (r1.1, none)
+            match r2.2.bind dmzSecondList with
+            | some l => if fwPermits acl l f.pl then routerProcess fuel r2.1 n i f else (r2.1, f)
+            | none => (r2.1, f)
+          else if fwPermits acl (secondList nd i f.dstIp) f.pl then routerProcess fuel st n i f
+          else (st, f)
     | _, _ => (st, f)
 
 /-- `Router.process_frame` (destination is not an own address) and `Router.route_frame`. -/
@@ -583,6 +660,8 @@ def ping (fuel : Nat) (st : St) (n : Nat) (target : Ip) (pings : Nat) : St × Bo
 /-- `NTPClient.request_time` with the server address configured: one request; success iff the reply arrived. -/
 def requestService (fuel : Nat) (st : St) (n : Nat) (server : Ip) : St × Bool :=
   let st := st.modNode n (fun nd => { nd with served := false })
+  -- a powered-off host has stopped its services: `_can_perform_action` fails, nothing is sent
+  if (st.node? n).any (fun nd => !nd.on) then (st, false) else
   let st := sendIcmp fuel st n server .dataReq
   match st.node? n with
   | none => (st, false)
@@ -601,5 +680,17 @@ def enableIface (fuel : Nat) (st : St) (n i : Nat) : St :=
 
 def disableIface (st : St) (n i : Nat) : St :=
   st.modNode n (fun nd => { nd with ifaces := nd.ifaces.modify i (fun x => { x with enabled := false }) })
+
+/-- `Node.power_off` with `shut_down_duration = 0`: every interface is disabled, then the node is OFF. -/
+def powerOff (st : St) (n : Nat) : St :=
+  st.modNode n (fun nd => { nd with on := false, ifaces := nd.ifaces.map (fun x => { x with enabled := false }) })
+
+/-- `Node.power_on` with `start_up_duration = 0`: the node is ON, then every interface is enabled in port order
+(each `enable` of a host NIC says hello to the default gateway). -/
+def powerOn (fuel : Nat) (st : St) (n : Nat) : St :=
+  match st.node? n with
+  | none => st
+  | some nd =>
+    (List.range nd.ifaces.length).foldl (fun acc i => enableIface fuel acc n i) (st.modNode n (fun nd => { nd with on := true }))
 
 end Primaite.Forward
